@@ -657,7 +657,7 @@ func c10storeSame(repo *storage.BlockRepository, m *c09model) string {
 
 func runC10storeFail(c *Ctx) {
 	t := c.Scen
-	cases := 2
+	cases := 1
 	if c.Tier == "thorough" {
 		cases = 3
 	}
@@ -721,7 +721,7 @@ func runC10storeFail(c *Ctx) {
 				return nil
 			}
 			c10storeExecWith(hist, rme, salt0, probe)
-			maxMut, reads := 40, 12
+			maxMut, reads := 30, 8
 			if c.Tier == "thorough" {
 				maxMut, reads = 120, 30
 			}
